@@ -107,6 +107,16 @@ def total_utility(spec, sol, eps_pos):
     return tot
 
 
+class _Results:
+    """the part of estimation results that the forecasting code reads: the parameter values"""
+
+    def __init__(self, betas):
+        self._betas = dict(betas)
+
+    def get_beta_values(self, *a, **k):
+        return dict(self._betas)
+
+
 def run(draws=20, seed=0, brute=3, variants=None, limit=15):
     rng = np.random.default_rng(seed + 99)
     row = M.one_row()
@@ -163,6 +173,61 @@ def run(draws=20, seed=0, brute=3, variants=None, limit=15):
                         if math.isfinite(ub) and not ua >= ub - TOL * max(1.0, abs(ub)):
                             bad('optimal', spec, d, budget, eps_pos,
                                 f'utility of the forecast {ua} < utility of the brute-force solution {ub}: {sol} vs {bf}')
+            # history: the same model then forecasts another observation (a one-row database of the same name with another
+            # value of z), then the first observation again; each forecast solves the problem of its own observation
+            if d == 0:
+                import copy
+                import pandas as pd
+                from biogeme.database import Database
+                dz = 1.5
+                row2 = Database(row.name, pd.DataFrame([dict(M.ROW, z=M.ROW['z'] + dz)]))
+                for spec, model, first in zip(group, models, sols):
+                    if first is None:
+                        continue
+                    spec2 = copy.copy(spec)
+                    spec2.V = [v + 0.3 * (i + 1) * dz for i, v in enumerate(spec.V)]
+                    n += 2
+                    try:
+                        with warnings.catch_warnings():
+                            warnings.simplefilter('ignore')
+                            _, sol2 = forecast(model, spec, row2, budget, eps_pos)
+                            _, again = forecast(model, spec, row, budget, eps_pos)
+                    except Exception as e:      # noqa
+                        bad('history: forecast raised', spec, d, budget, eps_pos, f'{type(e).__name__}: {e}')
+                        continue
+                    for clause, detail in check_solution(spec2, dict(sol2), budget, eps_pos):
+                        bad('history(second observation, same database name): ' + clause, spec, d, budget, eps_pos, detail)
+                    if not all(M.close(float(first[lab]), float(again[lab]), 1e-7, 1e-9 * budget) for lab in spec.labels):
+                        bad('history(first observation again)', spec, d, budget, eps_pos, f'{first} then {dict(again)}')
+            # history: new estimation results are given to the model, which then forecasts the SAME one-row database object:
+            # the forecast solves the problem with the new parameter values (done last, on the last draw: the models are
+            # not used afterwards)
+            if d == draws - 1:
+                import copy
+                dc = 0.45
+                for spec, model in zip(group, models):
+                    n += 1
+                    k = len(spec.labels)
+                    betas = {f'c_{i}': spec.V[i] - 0.3 * (i + 1) * M.ROW['z'] + dc * (i + 1) for i in range(k)}
+                    betas.update({f'gamma_{i}': spec.gamma[i] for i in range(k) if i != spec.outside_pos})
+                    if spec.variant != 'gamma_profile':
+                        betas.update({f'alpha_{i}': spec.alpha[i] for i in range(k)})
+                    if spec.variant == 'non_monotonic':
+                        betas.update({f'm_{i}': spec.mu[i] - 0.1 * M.ROW['w'] for i in range(k)})
+                    if spec.s is not None:
+                        betas['scale'] = spec.s
+                    spec3 = copy.copy(spec)
+                    spec3.V = [v + dc * (i + 1) for i, v in enumerate(spec.V)]
+                    try:
+                        with warnings.catch_warnings():
+                            warnings.simplefilter('ignore')
+                            model.estimation_results = _Results(betas)
+                            _, sol3 = forecast(model, spec, row, budget, eps_pos)
+                    except Exception as e:      # noqa
+                        bad('history(new parameter values): forecast raised', spec, d, budget, eps_pos, f'{type(e).__name__}: {e}')
+                        continue
+                    for clause, detail in check_solution(spec3, dict(sol3), budget, eps_pos):
+                        bad('history(new parameter values, same observation object): ' + clause, spec, d, budget, eps_pos, detail)
             # label invariance
             ref_spec, ref_sol = group[0], sols[0]
             for spec, sol in zip(group[1:], sols[1:]):
